@@ -7,8 +7,16 @@ GENERATED_OBLIGATIONS = ["Cte/Gen/LockSites.lean regenerated from the sources of
                          "repo_shared_state, repo_no_guard_writes, repo_lock_progs_wf, indicatorsProg_matches_source re-checked)"]
 HARNESS = "c05"
 N = {"quick": 40, "thorough": 600}
-USES_DRIVER = False
-CORRESPONDENCES = []
+import os
+import subprocess
+from framework import CACHE, ENV, Lock
+from framework import HARNESS as HARNESS_DIR
+CORRESPONDENCES = ["lock traces of indicator computations on 1, 2, 8 and 16 threads, recorded by the hook of /repo (--cfg cteenergymodel_verif: every "
+                   "acquisition and release of the three tables, by thread), replayed on the process machine (Proc.replay): every event is the "
+                   "thread's next lock action in indicatorsProg, every acquisition is granted by the machine, every thread finishes its program"]
+HOOK_TARGET = os.path.join(CACHE, "target-harness-hook")
+TRACEFILE = os.path.join(CACHE, "run", "locktrace.jsonl")
+HARNESS_ARGS = {"quick": {"tracefile": TRACEFILE}, "thorough": {"tracefile": TRACEFILE}}
 RULE = ("every shipped project (+ legacy files; all 56 in thorough) converted twice in the process, in a fresh process and on concurrent threads "
         "(byte identity of the JSON); the 6 shipped (project, reference model) pairs; a project with an unrelated definition added (ids of existing "
         "elements); indicators of real and generated models, each generated model followed by a twin with the same ids and other values, computed "
@@ -25,11 +33,44 @@ _stats = collections.Counter()
 def generate(rundir, tier):
     import gen_lock_sites
     probs, _, _ = gen_lock_sites.main()
+    # the harness built against /repo with the hook on, run for the lock traces
+    if os.path.exists(TRACEFILE):
+        os.remove(TRACEFILE)
+    env = dict(ENV, CARGO_TARGET_DIR=HOOK_TARGET, RUSTFLAGS="--cfg cteenergymodel_verif")
+    with Lock("cargo-hook"):
+        p = subprocess.run(["cargo", "build", "--release", "--offline", "--quiet"], cwd=HARNESS_DIR, env=env, stdout=subprocess.PIPE, stderr=subprocess.STDOUT)
+    if p.returncode != 0:
+        probs.append("the harness does not build against /repo with the hook on (--cfg cteenergymodel_verif): " + p.stdout.decode(errors="replace")[-300:])
+        return probs
+    outdir = os.path.dirname(TRACEFILE)
+    os.makedirs(outdir, exist_ok=True)
+    p = subprocess.run([os.path.join(HOOK_TARGET, "release", "cteverif"), "c05trace", "--out", outdir, "--tier", tier,
+                        "--seed", os.environ.get("VERIF_SEED", "1") or "1"], env=env, stdout=subprocess.PIPE, stderr=subprocess.STDOUT, timeout=1200)
+    if p.returncode != 0 or not os.path.exists(TRACEFILE):
+        probs.append("the hooked harness did not produce lock traces: " + p.stdout.decode(errors="replace")[-300:])
     return probs
 
 
 def compare(case, out):
-    return []
+    if case.get("op") != "locktrace":
+        return []
+    i = case["impl"]
+    _stats["lock_traces_replayed"] += 1
+    _stats["lock_events_replayed"] += i["events"]
+    res = []
+    want = 6 * i["computations_finished"]
+    if i["unknown_tables"]:
+        res.append((CORRESPONDENCES[0], f"{case['label']}: {i['unknown_tables']} events on a mutex that is none of the three tables"))
+    if i["computations_finished"] != case["threads"] * case["runs"]:
+        res.append((CORRESPONDENCES[0], f"{case['label']}: {i['computations_finished']} of {case['threads'] * case['runs']} computations finished"))
+    if not out.get("accepted"):
+        k = out.get("first_rejected")
+        ev = case["events"][k] if isinstance(k, int) and k < len(case["events"]) else None
+        res.append((CORRESPONDENCES[0], f"{case['label']}: the machine cannot produce the recorded trace: event {k} {ev} is not the thread's next lock "
+                    f"action, or the table is held by another thread ({out.get('why', '')})"))
+    elif not out.get("finished"):
+        res.append((CORRESPONDENCES[0], f"{case['label']}: the recorded trace ({i['events']} events, {want} expected) leaves a thread in the middle of its program"))
+    return res
 
 
 def oracle(case):
